@@ -78,6 +78,8 @@ struct Space {
     kinds: Vec<Kind>,
     /// (block layout, container, unplaced unmapped records)
     combos: Vec<(usize, usize, usize)>,
+    /// if not empty: the combinations used for index kinds with a non-default geometry
+    combos_geo: Vec<(usize, usize, usize)>,
     max_records: usize,
     reduced: bool,
     scratch: PathBuf,
@@ -114,7 +116,9 @@ fn body(ch: &Chooser, sp: &Space) -> Outcome {
     let kind = *ch.pick_free("index", &sp.kinds);
     let (ms, d) = kind.geometry();
     let (msu, du) = (ms as u32, d as u32);
-    let (layout, container, unplaced) = *ch.pick_free("combo", &sp.combos);
+    // the non-default geometries of the quick tier use two of the covering combinations
+    let combos = if kind.geometry() != (14, 5) && !sp.combos_geo.is_empty() { &sp.combos_geo } else { &sp.combos };
+    let (layout, container, unplaced) = *ch.pick_free("combo", combos);
     let (n_refs, focus, fillers) = CONTAINERS[container];
     let is_vcf = kind.is_vcf();
     let flavour = if is_vcf { ch.free("vcf-flavour", 2) } else { 0 };
@@ -226,9 +230,11 @@ fn body(ch: &Chooser, sp: &Space) -> Outcome {
                     bai::io::Writer::new(&mut buf).write_index(&ix).map_err(|e| io_v(label, "write-index", &describe, e))?;
                     let back = bai::io::Reader::new(&buf[..]).read_index().map_err(|e| io_v(label, "read-index", &describe, e))?;
                     if back == ix {
+                        // an equal index answers every query as the in-memory one does (stage 0 checks those)
                         ch.tag("index-equal-after-write-read");
+                    } else {
+                        run!(&back, "reread");
                     }
-                    run!(&back, "reread");
                 }
             }
             Kind::BamBinned(ms, d) => {
@@ -238,9 +244,11 @@ fn body(ch: &Chooser, sp: &Space) -> Outcome {
                 } else {
                     let back = csi_rt(&ix).map_err(|e| io_v(label, "write-read-index", &describe, e))?;
                     if back == ix {
+                        // an equal index answers every query as the in-memory one does (stage 0 checks those)
                         ch.tag("index-equal-after-write-read");
+                    } else {
+                        run!(&back, "reread");
                     }
-                    run!(&back, "reread");
                 }
             }
             Kind::BamLinear(ms, d) => {
@@ -275,9 +283,11 @@ fn body(ch: &Chooser, sp: &Space) -> Outcome {
                 } else {
                     let back = csi_rt(&ix).map_err(|e| io_v(label, "write-read-index", &describe, e))?;
                     if back == ix {
+                        // an equal index answers every query as the in-memory one does (stage 0 checks those)
                         ch.tag("index-equal-after-write-read");
+                    } else {
+                        run!(&back, "reread");
                     }
-                    run!(&back, "reread");
                 }
             }
             Kind::VcfTabix => {
@@ -295,9 +305,11 @@ fn body(ch: &Chooser, sp: &Space) -> Outcome {
                     }
                     let back = tabix::io::Reader::new(&buf[..]).read_index().map_err(|e| io_v(label, "read-index", &describe, e))?;
                     if back == ix {
+                        // an equal index answers every query as the in-memory one does (stage 0 checks those)
                         ch.tag("index-equal-after-write-read");
+                    } else {
+                        run!(&back, "reread");
                     }
-                    run!(&back, "reread");
                 }
             }
             Kind::VcfBinned(ms, d) => {
@@ -308,9 +320,11 @@ fn body(ch: &Chooser, sp: &Space) -> Outcome {
                 } else {
                     let back = csi_rt(&ix).map_err(|e| io_v(label, "write-read-index", &describe, e))?;
                     if back == ix {
+                        // an equal index answers every query as the in-memory one does (stage 0 checks those)
                         ch.tag("index-equal-after-write-read");
+                    } else {
+                        run!(&back, "reread");
                     }
-                    run!(&back, "reread");
                 }
             }
             _ => unreachable!(),
@@ -363,7 +377,10 @@ fn main() {
             Kind::BcfCsi,
             Kind::VcfTabix,
             Kind::BamBinned(14, 5),
+            // min_shift >, = and < depth
             Kind::BamBinned(3, 2),
+            Kind::BamBinned(2, 2),
+            Kind::BamBinned(1, 3),
             Kind::BamLinear(3, 2),
             Kind::VcfBinned(14, 5),
         ];
@@ -375,31 +392,35 @@ fn main() {
             Kind::BamBinned(12, 5),
             Kind::BamBinned(14, 6),
             Kind::BamBinned(3, 2),
+            Kind::BamBinned(2, 2),
+            Kind::BamBinned(1, 3),
+            Kind::BamBinned(2, 3),
             Kind::BamLinear(12, 5),
             Kind::BamLinear(3, 2),
             Kind::VcfBinned(14, 5),
             Kind::VcfBinned(3, 2),
+            Kind::VcfBinned(1, 3),
         ];
         if quick {
-            let sp = Space { kinds: kinds_q, combos: combos_covering(), max_records: 2, reduced: true, scratch: dir.path().to_path_buf() };
+            let sp = Space { kinds: kinds_q, combos: combos_covering(), combos_geo: vec![(1, 1, 2), (2, 2, 1)], max_records: 2, reduced: true, scratch: dir.path().to_path_buf() };
             ctx.harness(Config::new("query_le2_reduced", 0), |ch| body(ch, &sp));
         } else {
             // thorough (sized for <= 15 min on 16 cores):
             // (A) full alphabets, <= 2 records, the (14,5) index kinds, the four covering combinations ...
             let kinds_a = vec![Kind::BamBai, Kind::BcfCsi, Kind::VcfTabix, Kind::BamBinned(14, 5), Kind::VcfBinned(14, 5)];
-            let sp = Space { kinds: kinds_a, combos: combos_covering(), max_records: 2, reduced: false, scratch: dir.path().to_path_buf() };
+            let sp = Space { kinds: kinds_a, combos: combos_covering(), combos_geo: vec![], max_records: 2, reduced: false, scratch: dir.path().to_path_buf() };
             ctx.harness(Config::new("query_le2_full", 0), |ch| body(ch, &sp));
             // (B) every layout x container pair on the scaled-down alphabets for the three file-format indexers ...
             let main_kinds = vec![Kind::BamBai, Kind::BcfCsi, Kind::VcfTabix];
-            let sp = Space { kinds: main_kinds, combos: combos_pairs(), max_records: 2, reduced: true, scratch: dir.path().to_path_buf() };
+            let sp = Space { kinds: main_kinds, combos: combos_pairs(), combos_geo: vec![], max_records: 2, reduced: true, scratch: dir.path().to_path_buf() };
             ctx.harness(Config::new("query_le2_reduced_all_layouts", 0), |ch| body(ch, &sp));
             // (C) the non-default geometries (binned and linear) on their own scaled-down alphabets ...
             let kinds_c: Vec<Kind> = kinds_t.iter().copied().filter(|k| k.geometry() != (14, 5)).collect();
-            let sp = Space { kinds: kinds_c, combos: combos_covering(), max_records: 2, reduced: true, scratch: dir.path().to_path_buf() };
+            let sp = Space { kinds: kinds_c, combos: combos_covering(), combos_geo: vec![], max_records: 2, reduced: true, scratch: dir.path().to_path_buf() };
             ctx.harness(Config::new("query_le2_reduced_geometries", 0), |ch| body(ch, &sp));
             // (D) <= 3 records on the scaled-down alphabets (two multi-reference combinations).
-            let kinds3 = vec![Kind::BamBai, Kind::BcfCsi, Kind::VcfTabix, Kind::BamBinned(3, 2)];
-            let sp = Space { kinds: kinds3, combos: vec![(1, 1, 2), (2, 2, 1)], max_records: 3, reduced: true, scratch: dir.path().to_path_buf() };
+            let kinds3 = vec![Kind::BamBai, Kind::BcfCsi, Kind::VcfTabix, Kind::BamBinned(3, 2), Kind::BamBinned(1, 3)];
+            let sp = Space { kinds: kinds3, combos: vec![(1, 1, 2), (2, 2, 1)], combos_geo: vec![], max_records: 3, reduced: true, scratch: dir.path().to_path_buf() };
             ctx.harness(Config::new("query_le3_reduced", 0), |ch| body(ch, &sp));
         }
         drop(dir);
